@@ -427,6 +427,7 @@ class SimMachine(object):
             for y in range(height):
                 self.chips[(x, y)] = Chip(self, x, y, n_cores)
         self.booted = True
+        self.p2p_unknown_until = -1.0
         self.commands = 0
         self.validate = True
         self.strict_access = True
@@ -552,7 +553,10 @@ class SimMachine(object):
 
     # -- individual commands ---------------------------------------------
     def _sver(self, chip, r):
-        arg1 = (((chip.x << 8) | chip.y) << 16) | \
+        pos = (chip.x << 8) | chip.y
+        if self.w.sim.now < self.p2p_unknown_until:
+            pos = 0xffff
+        arg1 = (pos << 16) | \
             (((r.dest_cpu * 5 + 1) % 18) << 8) | r.dest_cpu
         name = "SC&MP/SpiNNaker" if r.dest_cpu == 0 else "SARK/SpiNNaker"
         if self.semver is None:
